@@ -30,12 +30,16 @@ Proof.
   destruct (dv_inst e <? dv_inst s), ab; reflexivity.
 Qed.
 
-(* `x in interval` for a value whose tzinfo is neither end's: start <= x <= end on instants *)
-Lemma contains_mixed_l iv x : dv_kind (iv_start iv) = K_AWARE -> dv_kind x = K_AWARE ->
+(* `x in interval` for a value whose tzinfo is neither end's: lo <= x <= hi on instants, the ends taken in ascending order *)
+Lemma contains_mixed_l iv x : dv_kind (iv_start iv) = K_AWARE -> dv_kind (iv_end iv) = K_AWARE -> dv_kind x = K_AWARE ->
   dv_tzid (iv_start iv) <> dv_tzid x -> dv_tzid x <> dv_tzid (iv_end iv) ->
-  py_contains iv x = (dv_inst (iv_start iv) <=? dv_inst x) && (dv_inst x <=? dv_inst (iv_end iv)).
+  py_contains iv x =
+    if range_down iv then (dv_inst (iv_end iv) <=? dv_inst x) && (dv_inst x <=? dv_inst (iv_start iv))
+    else (dv_inst (iv_start iv) <=? dv_inst x) && (dv_inst x <=? dv_inst (iv_end iv)).
 Proof.
-  intros Hs Hx N1 N2. rewrite contains_spec_l. rewrite (dt_le_mixed _ _ Hs N1), (dt_le_mixed _ _ Hx N2). reflexivity.
+  intros Hs He Hx N1 N2. rewrite contains_spec_l.
+  rewrite (dt_le_mixed _ _ Hs N1), (dt_le_mixed _ _ Hx N2), (dt_le_mixed _ _ He (not_eq_sym N2)), (dt_le_mixed _ _ Hx (not_eq_sym N1)).
+  reflexivity.
 Qed.
 
 (* an element of the sequence with a fixed-length unit: instant, kind and tzinfo *)
@@ -77,18 +81,21 @@ Proof.
   - change (OP_le =? OP_ge) with false. cbv iota. apply dt_le_mixed; [exact B|congruence].
 Qed.
 
-(* a finished run: every yielded value is at its instant and not beyond the end's instant; the next element of the sequence is beyond it *)
+(* a finished run: every yielded value is at its instant and not beyond the end's instant; the next element of the sequence is beyond it,
+   or it is outside the supported range of dates (computing it raises OverflowError / ValueError, which ends the iteration) *)
 Lemma range_mixed_stop_l fuel l : py_range fuel iv u n = (l, GDone) ->
   (forall j x, nth_error l j = Some x -> dv_inst x = inst_at j /\ inst_within (inst_at j) = true /\ dv_tzid x = dv_tzid (iv_start iv)) /\
-  inst_within (inst_at (length l)) = false.
+  (inst_within (inst_at (length l)) = false \/ exists e, seq_at iv u n (length l) = Raise e /\ limit_exn e = true).
 Proof.
-  intros H. destruct (range_prefix_l _ _ _ _ _ H) as [P [y [Hy Wy]]]. split.
+  intros H. destruct (range_prefix_l _ _ _ _ _ H) as [P Q]. split.
   - intros j x Hx.
     assert (Hj : (j < length l)%nat) by (apply nth_error_Some; congruence).
     destruct (P j Hj) as [x' [Hx' [Sx Wx]]]. rewrite Hx in Hx'. injection Hx' as <-.
     destruct (seq_fixed_full _ _ _ _ _ Hwf Hks Hu Sx) as (A & _ & C).
     rewrite (within_mixed _ _ Sx) in Wx. repeat split; assumption.
-  - rewrite (within_mixed _ _ Hy) in Wy. exact Wy.
+  - destruct Q as [[y [Hy Wy]]|[e [He [Le _]]]].
+    + left. rewrite (within_mixed _ _ Hy) in Wy. exact Wy.
+    + right. exists e. split; assumption.
 Qed.
 
 (* the instants of the sequence are strictly monotone in the direction of the iteration, so "beyond the end" is upward closed *)
@@ -99,11 +106,13 @@ Proof.
   unfold inst_within, inst_at in *. destruct (range_down iv); nia.
 Qed.
 
-(* EXACT: index k is yielded iff start +- k*n units is not beyond the end's instant *)
-Lemma range_mixed_exact_l fuel l : 1 <= n -> py_range fuel iv u n = (l, GDone) ->
+(* EXACT: index k is yielded iff start +- k*n units is not beyond the end's instant — for a run that did not stop at the limit of the calendar
+   (the element after the last value is representable) *)
+Lemma range_mixed_exact_l fuel l : 1 <= n -> py_range fuel iv u n = (l, GDone) -> (exists y, seq_at iv u n (length l) = Ok y) ->
   forall k, (k < length l)%nat <-> inst_within (inst_at k) = true.
 Proof.
-  intros Hn H k. destruct (range_mixed_stop_l _ _ H) as [P Q]. split.
+  intros Hn H [y0 Hy0] k. destruct (range_mixed_stop_l _ _ H) as [P Q].
+  destruct Q as [Q|[e0 [He0 _]]]; [|rewrite He0 in Hy0; discriminate Hy0]. split.
   - intros Hk. destruct (nth_error l k) as [x|] eqn:E; [|apply nth_error_None in E; lia].
     exact (proj1 (proj2 (P k x E))).
   - intros W. destruct (Nat.lt_ge_cases k (length l)) as [|Hge]; [assumption|].
@@ -111,10 +120,10 @@ Proof.
 Qed.
 
 (* hence the end is yielded iff its instant is on the grid, and then it is the last value *)
-Lemma range_mixed_end_l fuel l k : 1 <= n -> py_range fuel iv u n = (l, GDone) ->
+Lemma range_mixed_end_l fuel l k : 1 <= n -> py_range fuel iv u n = (l, GDone) -> (exists y, seq_at iv u n (length l) = Ok y) ->
   inst_at k = dv_inst (iv_end iv) -> exists x, nth_error l k = Some x /\ dv_inst x = dv_inst (iv_end iv) /\ length l = S k.
 Proof.
-  intros Hn H Hk. pose proof (range_mixed_exact_l _ _ Hn H) as X. destruct (range_mixed_stop_l _ _ H) as [P Q].
+  intros Hn H Hrep Hk. pose proof (range_mixed_exact_l _ _ Hn H Hrep) as X. destruct (range_mixed_stop_l _ _ H) as [P Q].
   assert (Wk : inst_within (inst_at k) = true) by (rewrite Hk; unfold inst_within; destruct (range_down iv); lia).
   pose proof (proj2 (X k) Wk) as Lk.
   destruct (nth_error l k) as [x|] eqn:E; [|apply nth_error_None in E; lia].
@@ -149,6 +158,11 @@ Example mixed_zones_second_pass :
   nth_error (map dv_W (fst (py_range 20 iv U_minutes 30))) 5 = Some 63739189800000000 /\       (* 02:30 (+02:00) *)
   nth_error (map dv_W (fst (py_range 20 iv U_minutes 30))) 6 = Some 63739188000000000.         (* 02:00 (+01:00) *)
 Proof. vm_compute. repeat split; reflexivity. Qed.
+
+(* that run did not stop at the limit of the calendar: the element after its last value is representable (hypothesis of range_mixed_exact_l / _end_l) *)
+Example mixed_next_representable :
+  exists y, seq_at mixed_iv U_minutes 30 (length (fst (py_range 20 mixed_iv U_minutes 30))) = Ok y.
+Proof. vm_compute. eexists. reflexivity. Qed.
 
 (* the hypotheses of the section are satisfiable *)
 Example mixed_hypotheses_satisfiable :
